@@ -230,7 +230,26 @@ func (c *Ctx) oblige(kind, name, guard, cond string) *Obl {
 // ---------------------------------------------------------------------------
 // Types, sorts, leaves
 
+// typeKey: canonical, alias-free name of a type (component keys are built from it).
 func (c *Ctx) typeKey(T types.Type) string {
+	switch t := T.(type) {
+	case *types.Alias:
+		return c.typeKey(types.Unalias(t))
+	case *types.Pointer:
+		return "*" + c.typeKey(t.Elem())
+	case *types.Slice:
+		return "[]" + c.typeKey(t.Elem())
+	case *types.Array:
+		return fmt.Sprintf("[%d]%s", t.Len(), c.typeKey(t.Elem()))
+	case *types.Map:
+		return "map[" + c.typeKey(t.Key()) + "]" + c.typeKey(t.Elem())
+	case *types.Chan:
+		return "chan " + c.typeKey(t.Elem())
+	case *types.Interface:
+		if t.NumMethods() == 0 && t.NumEmbeddeds() == 0 {
+			return "interface{}"
+		}
+	}
 	return types.TypeString(T, func(p *types.Package) string { return p.Name() })
 }
 
